@@ -658,7 +658,123 @@ func contentDigest(d *db19.Database) (string, int) {
 	return hex.EncodeToString(h.Sum(nil)[:10]), agree
 }
 
+// tableDigest: rows of one table (by live column) + dump schema text
+func tableDigest(path, name string) (string, int) {
+	d, err := db19.OpenDb(path, stor.Read, true)
+	if err != nil {
+		return "open:" + fmt.Sprint(err), 0
+	}
+	defer d.Close()
+	rt := d.NewReadTran()
+	m := db19.VerifReadMeta(rt)
+	ts := m.GetRoSchema(name)
+	if ts == nil {
+		return "missing", 0
+	}
+	var rows []string
+	it := rt.IndexIter(name, 0)
+	for it.Next(rt); !it.Eof(); it.Next(rt) {
+		rec := db19.OffToRec(d.Store, it.CurOff())
+		var sb strings.Builder
+		for ci, col := range ts.Columns {
+			if col == "-" {
+				continue
+			}
+			if ci < rec.Count() {
+				sb.WriteString(rec.GetRaw(ci))
+			}
+			sb.WriteString("\x00\x02")
+		}
+		rows = append(rows, strings.TrimRight(sb.String(), "\x00\x02"))
+	}
+	sort.Strings(rows)
+	h := sha1.Sum([]byte(ts.Schema.DumpString(0) + "\n" + strings.Join(rows, "\x00\x01")))
+	return hex.EncodeToString(h[:10]), len(rows)
+}
+
+// tablePhase: DumpTable + LoadTable into a fresh database must give the same table;
+// a dump edited to contain a duplicate key must be refused by load
+func tablePhase(r *rand.Rand, path string, tot map[string]int) {
+	d, err := db19.OpenDb(path, stor.Read, true)
+	if err != nil {
+		return
+	}
+	var names []string
+	for ts := range d.GetState().Meta.Tables() {
+		if ti := d.GetState().Meta.GetRoInfo(ts.Table); ti != nil && ti.Nrows > 0 {
+			names = append(names, ts.Table)
+		}
+	}
+	d.Close()
+	if len(names) == 0 {
+		return
+	}
+	sort.Strings(names)
+	name := names[r.Intn(len(names))]
+	wd, _ := os.Getwd()
+	os.Chdir(dir)
+	defer os.Chdir(wd)
+	su := name + ".su"
+	newdb := filepath.Join(dir, "tbl.db")
+	defer func() {
+		for _, f := range []string{su, su + ".bak", newdb, newdb + ".bak"} {
+			os.Remove(f)
+		}
+	}()
+	os.Remove(newdb)
+	res := try(func() {
+		if _, err := tools.DumpTable(path, name, su); err != nil {
+			panic(err)
+		}
+		if _, err := tools.LoadTable(name, newdb); err != nil {
+			panic(err)
+		}
+	})
+	same := 0
+	if res == "ok" {
+		a, na := tableDigest(path, name)
+		b, nb := tableDigest(newdb, name)
+		if a == b && na == nb {
+			same = 1
+		}
+	}
+	tr.Emit(vh.E("TableRoundTrip", "table", name, "res", res, "same", same))
+	tot["table_roundtrips"]++
+	// duplicate the first record of the dump
+	b, err := os.ReadFile(su)
+	if err != nil || res != "ok" {
+		return
+	}
+	nl1 := strings.IndexByte(string(b), '\n')
+	nl2 := nl1 + 1 + strings.IndexByte(string(b[nl1+1:]), '\n')
+	p := nl2 + 1
+	if p+4 > len(b) {
+		return
+	}
+	n := int(b[p])<<24 | int(b[p+1])<<16 | int(b[p+2])<<8 | int(b[p+3])
+	if n == 0 || p+4+n > len(b) {
+		return
+	}
+	dup := append([]byte{}, b[:p+4+n]...)
+	dup = append(dup, b[p:p+4+n]...)
+	dup = append(dup, b[p+4+n:]...)
+	os.WriteFile(su, dup, 0o644)
+	os.Remove(newdb)
+	res = try(func() {
+		if _, err := tools.LoadTable(name, newdb); err != nil {
+			panic(err)
+		}
+	})
+	out := "refused"
+	if res == "ok" {
+		out = "accepted"
+	}
+	tr.Emit(vh.E("DupLoad", "table", name, "res", out))
+	tot["dup_loads"]++
+}
+
 func dumpPhase(r *rand.Rand, path string, tot map[string]int) {
+	tablePhase(r, path, tot)
 	orig, agree, ck := digestFile(path)
 	tr.Emit(vh.E("Original", "dig", orig, "agree", agree, "check", ck))
 	dump := path + ".dump"
